@@ -1,5 +1,6 @@
 import SaModel.Build.Push
 import SaModel.Spec.Interp
+import SaModel.Lemmas.C01LeafBridge
 /-
 Inversion lemmas for `pushMapOps` (a raw `serialize_key` / `serialize_value` stream into a `MapBuilder`, with the
 `key_pending` flag of repo fix eafdf15): what a SUCCESSFUL step says about the flag and the sub-steps.  Shared by the
